@@ -16,6 +16,7 @@
 #include <map>
 #include <memory>
 #include <cstdlib>
+#include <cstring>
 #include <cstdio>
 #include <cmath>
 #include <cstdint>
@@ -131,24 +132,54 @@ static inline bool is_div_op(const std::string& op) { return op == "div" || op =
 typedef std::string (*DomFn)(const Case&);
 static std::map<std::string, DomFn>& dom_table() { static std::map<std::string, DomFn> t; return t; }
 
-// CPU-time watchdog (load independent): a child that uses more than the budget gets SIGXCPU (24) and its case is reported as
-// "... CRASH 24"; the python side re-runs that single case with a larger budget (C15_CPU_BUDGET) before calling it a hang.
-static void cpu_budget(long per_case, long ncases) {
-    const char* e = getenv("C15_CPU_BUDGET");
-    long b = e ? atol(e) : 10;
-    if (b < 1) b = 10;
-    (void) per_case;
-    struct rlimit rl; rl.rlim_cur = (rlim_t) (b + ncases / 50); rl.rlim_max = rl.rlim_cur + 5;
+// ---------------------------------------------------------------- hang / crash handling with a cost bounded for the whole check run
+// CPU-time watchdog (RLIMIT_CPU, load independent).  First stage: 10 s CPU per call (per batch of calls that normally take
+// microseconds); a call that overruns is re-run alone with 30 s ("confirmation").  The counters are SHARED by all harness processes of
+// one check run through the append-only file $C15_HANG_STATE (one short line per event):
+//   O <form>  first-stage overrun      H <form>  confirmed "does not return"      C <form>  crash (signal other than SIGXCPU)
+// rules: a form with an H line is not driven any more by any process; a form with 4 C lines likewise; after 6 O lines or 3 H lines
+// in total every stream stops (remaining cases are answered STREAM-STOPPED).
+#include <fcntl.h>
+#include <sys/file.h>
+struct HangState { int o, h, s; std::map<std::string, int> hf, cf; };
+static HangState hang_state() {
+    HangState st; st.o = st.h = st.s = 0;
+    const char* p = getenv("C15_HANG_STATE");
+    if (!p) return st;
+    FILE* f = fopen(p, "r");
+    if (!f) return st;
+    char buf[512];
+    while (fgets(buf, sizeof buf, f)) {
+        std::string l(buf); while (!l.empty() && (l[l.size() - 1] == '\n' || l[l.size() - 1] == '\r')) l.erase(l.size() - 1);
+        if (l.size() < 3) continue;
+        std::string form = l.substr(2);
+        if (l[0] == 'O') ++st.o; else if (l[0] == 'H') { ++st.h; ++st.hf[form]; } else if (l[0] == 'C') ++st.cf[form]; else if (l[0] == 'S') ++st.s;
+    }
+    fclose(f);
+    return st;
+}
+static std::map<std::string, int>& local_events() { static std::map<std::string, int> t; return t; }    // when no state file is given
+static void hang_event(char kind, const std::string& form) {
+    const char* p = getenv("C15_HANG_STATE");
+    std::string l = std::string(1, kind) + " " + form + "\n";
+    if (!p) { ++local_events()[l]; return; }
+    int fd = open(p, O_WRONLY | O_APPEND | O_CREAT, 0644);
+    if (fd >= 0) { if (write(fd, l.data(), l.size()) < 0) {} close(fd); }
+}
+static void cpu_budget(long seconds) {
+    struct rlimit rl; rl.rlim_cur = (rlim_t) seconds; rl.rlim_max = rl.rlim_cur + 2;
     setrlimit(RLIMIT_CPU, &rl);
 }
-static std::string run_one_forked(DomFn fn, const Case& c) {
+static long first_budget() { const char* e = getenv("C15_CPU_BUDGET"); long b = e ? atol(e) : 10; return b < 1 ? 10 : b; }
+static long confirm_budget() { const char* e = getenv("C15_CPU_CONFIRM"); long b = e ? atol(e) : 30; return b < 1 ? 30 : b; }
+static std::string run_one_forked(DomFn fn, const Case& c, long budget) {
     { Case prep = c; prep.op = "__prepare__"; fn(prep); }     // build the domain object in the parent
     int fds[2];
     if (pipe(fds) != 0) return "PIPE-ERROR";
     std::cout.flush();
     pid_t pid = fork();
     if (pid == 0) {
-        close(fds[0]); g_fd = fds[1]; cpu_budget(0, 1);
+        close(fds[0]); g_fd = fds[1]; cpu_budget(budget);
         std::string r = fn(c);
         if (write(g_fd, r.data(), r.size()) < 0) {}
         _exit(0);
@@ -162,44 +193,77 @@ static std::string run_one_forked(DomFn fn, const Case& c) {
     for (size_t i = 0; i < got.size(); ++i) if (got[i] == '\n') got[i] = ' ';
     return got;
 }
-// an operation whose cases exhausted their CPU budget three times is not run again in this process (each further hang would cost
-// a full budget): its remaining cases are answered "NOT-RUN-AFTER-TIMEOUTS", which the python side reports with the three
-static std::map<std::string, int>& timeouts() { static std::map<std::string, int> t; return t; }
-static std::string answer(const std::string& line, bool forked) {
+static bool ends_with(const std::string& r, const char* t) { size_t n = strlen(t); return r.size() >= n && r.compare(r.size() - n, n, t) == 0; }
+// one case in its own child, under the shared caps.  confirm_first: the case is the one a batch died on (its first stage is spent)
+static std::string answer_guarded(DomFn fn, const Case& c, bool confirm_first) {
+    std::string form = c.dom + " " + c.op;
+    HangState st = hang_state();
+    if (st.hf.count(form) || st.cf[form] >= 4) return "FORM-DISABLED";
+    if (st.o >= 6 || st.h >= 3 || st.s >= 3) return "STREAM-STOPPED";
+    std::string r;
+    if (!confirm_first) {
+        r = run_one_forked(fn, c, first_budget());
+        if (!ends_with(r, " CRASH 24")) {
+            if (r.find(" CRASH ") != std::string::npos) hang_event('C', form);
+            return r;
+        }
+        hang_event('O', form);
+    }
+    {   // at most three confirmations per check run, whichever process asks: check-and-register under a file lock ('S' = started)
+        const char* p = getenv("C15_HANG_STATE");
+        int lfd = p ? open(p, O_RDWR | O_APPEND | O_CREAT, 0644) : -1;
+        if (lfd >= 0) flock(lfd, LOCK_EX);
+        HangState s2 = hang_state();
+        bool go = s2.s + (p ? 0 : local_events()["S\n"]) < 3 && !s2.hf.count(form);
+        if (go) hang_event('S', p ? form : std::string());
+        if (lfd >= 0) { flock(lfd, LOCK_UN); close(lfd); }
+        if (!go) return s2.hf.count(form) ? "FORM-DISABLED" : "STREAM-STOPPED";
+    }
+    r = run_one_forked(fn, c, confirm_budget());           // confirmation: alone, three times the budget
+    if (ends_with(r, " CRASH 24")) { hang_event('H', form); return r + " CONFIRMED"; }
+    if (r.find(" CRASH ") != std::string::npos) hang_event('C', form);
+    return r;
+}
+static std::string answer(const std::string& line, int mode) {      // mode 0: in-process, 1: guarded child, 2: guarded, confirmation first
     Case c;
     if (!parse_case(line, c)) return line.empty() ? "" : "BAD-LINE";
     std::map<std::string, DomFn>::iterator it = dom_table().find(c.dom);
     if (it == dom_table().end()) return "UNKNOWN-DOM";
-    if (!forked) return it->second(c);
-    std::string key = c.dom + " " + c.op;
-    if (timeouts()[key] >= 3) return "NOT-RUN-AFTER-TIMEOUTS";
-    std::string r = run_one_forked(it->second, c);
-    if (r.size() >= 9 && r.compare(r.size() - 9, 9, " CRASH 24") == 0) ++timeouts()[key];
-    return r;
+    if (mode == 0) return it->second(c);
+    return answer_guarded(it->second, c, mode == 2);
 }
 static int main_loop() {
     std::string line;
     if (g_fork) {
-        while (std::getline(std::cin, line)) { if (line.empty()) continue; std::cout << answer(line, true) << "\n"; }
+        while (std::getline(std::cin, line)) { if (line.empty()) continue; std::cout << answer(line, 1) << "\n"; }
         return 0;
     }
     // families whose cases cannot corrupt memory run in BATCHES inside one forked child (cheap); when a batch dies or exceeds its
-    // CPU budget, the unanswered cases of that batch are re-run one by one, each in its own child: a crash or a hang is then the
-    // failing input of one case, not a dead run
+    // CPU budget, the case it died on is confirmed alone and the unanswered rest of the batch is run case by case
     std::vector<std::string> batch;
     bool more = true;
     while (more) {
         batch.clear();
         while (batch.size() < 400 && (more = (bool) std::getline(std::cin, line))) if (!line.empty()) batch.push_back(line);
         if (batch.empty()) continue;
+        HangState st = hang_state();
+        bool stop = st.o >= 6 || st.h >= 3 || (st.s >= 3 && st.h >= 1);
+        // forms already disabled are not sent into the batch child
+        std::vector<int> skip(batch.size(), 0);
+        for (size_t i = 0; i < batch.size(); ++i) {
+            Case c; if (!parse_case(batch[i], c)) continue;
+            std::string form = c.dom + " " + c.op;
+            if (st.hf.count(form) || st.cf[form] >= 4) skip[i] = 1;
+        }
+        if (stop) { for (size_t i = 0; i < batch.size(); ++i) std::cout << "STREAM-STOPPED\n"; continue; }
         int fds[2];
         if (pipe(fds) != 0) return 3;
         std::cout.flush();
         pid_t pid = fork();
         if (pid == 0) {
-            close(fds[0]); cpu_budget(0, (long) batch.size());
+            close(fds[0]); cpu_budget(first_budget());
             FILE* f = fdopen(fds[1], "w");
-            for (size_t i = 0; i < batch.size(); ++i) { std::string r = answer(batch[i], false); fprintf(f, "%s\n", r.c_str()); fflush(f); }
+            for (size_t i = 0; i < batch.size(); ++i) { std::string r = skip[i] ? std::string("FORM-DISABLED") : answer(batch[i], 0); fprintf(f, "%s\n", r.c_str()); fflush(f); }
             fclose(f);
             _exit(0);
         }
@@ -207,7 +271,7 @@ static int main_loop() {
         std::string got; char buf[65536]; ssize_t k;
         while ((k = read(fds[0], buf, sizeof buf)) > 0) got.append(buf, (size_t) k);
         close(fds[0]);
-        int st = 0; waitpid(pid, &st, 0);
+        int wst = 0; waitpid(pid, &wst, 0);
         size_t done = 0, pos = 0;
         while (done < batch.size()) {
             size_t nl = got.find('\n', pos);
@@ -215,7 +279,12 @@ static int main_loop() {
             std::cout << got.substr(pos, nl - pos) << "\n";
             pos = nl + 1; ++done;
         }
-        for (size_t i = done; i < batch.size(); ++i) std::cout << answer(batch[i], true) << "\n";
+        if (done < batch.size()) {
+            bool xcpu = WIFSIGNALED(wst) && WTERMSIG(wst) == 24;
+            if (xcpu) { Case c; if (parse_case(batch[done], c)) hang_event('O', c.dom + " " + c.op); }
+            for (size_t i = done; i < batch.size(); ++i)
+                std::cout << (skip[i] ? std::string("FORM-DISABLED") : answer(batch[i], i == done && xcpu ? 2 : 1)) << "\n";
+        }
     }
     return 0;
 }
